@@ -973,3 +973,31 @@ func c01OddKeys(res *Result) {
 		{"{{ u8[neg] }}|{{ u8[200] }}|{{ u8[456] }}|{{ i64[big] }}|{{ um[big] }}|{{ i64[neg + 55] }}|{{ neg in u8 }}|{{ big in i64 }}", "|tw|||1|m|False|False"},
 	})
 }
+
+// c12ChainMacroClash: a context key (or global) named like an exported macro of any template of the
+// chain is rejected, whichever template of the chain is executed
+func c12ChainMacroClash(res *Result) {
+	files := map[string]string{"/base.tpl": `{% macro foo() export %}M{% endmacro %}[{{ foo }}]{% block b %}{% endblock %}`,
+		"/mid.tpl": `{% extends "/base.tpl" %}{% macro bar() export %}B{% endmacro %}{% block b %}m{% endblock %}`, "/leaf.tpl": `{% extends "/mid.tpl" %}{% block b %}l{% endblock %}`}
+	for _, name := range []string{"/base.tpl", "/mid.tpl", "/leaf.tpl"} {
+		for key, clash := range map[string]bool{"foo": true, "other": false} {
+			for _, viaGlobals := range []bool{false, true} {
+				res.Cases++
+				set := pongo2.NewSet("c12-clash", &memLoader{files: files})
+				ctx := pongo2.Context{key: "ctx"}
+				if viaGlobals {
+					set.Globals[key] = "g"
+					ctx = pongo2.Context{"unrelated": 1}
+				}
+				tpl, err := set.FromFile(name)
+				if err != nil {
+					continue
+				}
+				r := execOnce(tpl, ctx)
+				if rejected := r.err != ""; rejected != clash {
+					oracleFail(res, "reference", "c12-macro-clash-along-chain", fmt.Sprintf("%s executed with %s=… (through Globals: %v); foo is an exported macro of /base.tpl", name, key, viaGlobals), r.String(), fmt.Sprintf("rejected: %v", clash))
+				}
+			}
+		}
+	}
+}
